@@ -7,6 +7,14 @@ ROOT = os.path.dirname(os.path.dirname(os.path.abspath(__file__)))
 
 # id -> (technique, level text, level note, design ref)
 CHECKS = {
+ "C09": ("proptest over (VM kind, offset pairs, packet sequences, engine schedules) against an address oracle, one VM object driven through all three engines in a forked child",
+         "Probe programs expose r1, r10, stack usability, packet addressing and - for the fixed-metadata VM - the two stored pointers; the harness knows the real packet addresses and checks every execution of a generated schedule on interpreter, JIT and Cranelift. Exploration.",
+         "Empty-packet start pointer is not compared (only end - start == 0).",
+         "DESIGN.md section 3, C09"),
+ "C10": ("model-based (stateful) property testing: generated API-call histories checked step by step against an abstract VM state machine, fork-isolated",
+         "Histories of up to 30 calls over load / verify / configure / compile / execute on all four VM kinds; the abstract machine predicts Ok/Err and the value of every step, using the reference model for program results; stale compiled code and state changes by failed calls are detected at the first observation that differs. Exploration.",
+         "The 'default' verifier re-installed through set_verifier is the harness's reference verifier (the crate does not export its own).",
+         "DESIGN.md section 3, C10"),
  "C02": ("proptest + exhaustive boundary windows of single-access probes against an exact address oracle, fork-isolated with PROT_NONE guard pages and canary arenas",
          "Each probe is one access instruction whose effective address sits at a generated distance (-9..+9) from a boundary of packet, metadata buffer, registered range or stack, or is null / top-of-address-space / wrapping / far; the child process knows the real addresses and decides allowed <=> inside exactly one region, then checks Ok + exact value / stored bytes, or Err + no byte changed. Thorough enumerates every (boundary, delta, kind, width) for fixed layouts. Exploration (exhaustive within the windows in the thorough tier).",
          "Stack boundaries are probed r10-relative; registered ranges are kept from touching other regions.",
